@@ -269,7 +269,7 @@ def player_rule(F, rep, spec):
                 body = L.strip_try(a["body"])
                 kind = "cpu" if exact_cpu else ("mixed" if mentions_cpu else "other")
                 res[kind] = "some" if (declared(body) or "").endswith("Some") else ("none" if (body.get("path") or "").endswith("None") else "?")
-            cpu_ok = res == {"cpu": "some", "other": "none"} and n_arms == 2
+            cpu_ok = cpu_ok or (res == {"cpu": "some", "other": "none"} and n_arms == 2)
         # Some(<level byte>).filter(|_| type == Some(PlayerType::Cpu))  /  (type == Some(Cpu)).then_some(<level byte>)
         if x.get("k") == "MethodCall" and x["method"] == "filter" and len(x["args"]) == 1 and (declared(strip(x["recv"])) or "").endswith("::Some"):
             cl = strip(x["args"][0])
@@ -277,6 +277,16 @@ def player_rule(F, rep, spec):
             cpu_ok = cpu_ok or is_cpu_test(c, tname)
         if x.get("k") == "MethodCall" and x["method"] in ("then_some", "then") and is_cpu_test(strip(x["recv"]), tname):
             cpu_ok = True
+        if x.get("k") == "MethodCall" and x["method"] in ("then_some", "then"):
+            # matches!(type, Some(PlayerType::Cpu)) expands to `match type { Some(PlayerType::Cpu) => true, _ => false }`
+            mm = strip(x["recv"])
+            if mm.get("k") == "Match" and L.local_name(mm["scrut"]) == tname and len(mm["arms"]) == 2:
+                a0, a1 = mm["arms"]
+                pt = a0["pat"]
+                exact_cpu = (pt.get("k") == "TupleStruct" and (pt.get("path") or "").endswith("Some") and len(pt["pats"]) == 1 and pt["pats"][0].get("k") == "Lit"
+                             and (pt["pats"][0]["e"].get("path") or "").endswith("PlayerType::Cpu"))
+                if exact_cpu and not a0.get("guard") and strip(a0["body"]).get("v") is True and a1["pat"].get("k") == "Wild" and strip(a1["body"]).get("v") is False:
+                    cpu_ok = True
     rep.ob("player.cpu-level", cpu_ok, PL, "cpu_level", "cpu_level must be present exactly for CPU players")
     ucf = F.structs.get("game::Ucf")
     utys = {f["name"]: f["ty"] for f in ucf["fields"]} if ucf else {}
@@ -366,6 +376,30 @@ def placements_ok(b):
                 idx = strip(idx["e"])
             plc = ix.get("k") == "Index" and (tir.place(ix["base"]) or "").endswith("placements") and idx.get("id") == nid
             return bool(port_from_n and plc)
+    # placements.into_iter().enumerate().filter_map(|(n, placement)| player_end(Port::try_from(n as u8).unwrap(), placement).transpose())
+    for fm in tir.walk(b["tir"]["value"]):
+        if fm.get("k") == "MethodCall" and fm["method"] in ("filter_map", "map") and len(fm["args"]) == 1:
+            it = strip(fm["recv"])
+            cl = strip(fm["args"][0])
+            if not (it.get("k") == "MethodCall" and it["method"] == "enumerate" and cl.get("k") == "Closure" and len(cl["params"]) == 1 and cl["params"][0].get("k") == "Tuple" and len(cl["params"][0]["pats"]) == 2):
+                continue
+            src = strip(it["recv"])
+            while src.get("k") == "MethodCall" and src["method"] in ("iter", "into_iter", "copied") and not src.get("args"):
+                src = strip(src["recv"])
+            if not (tir.place(src) or "").endswith("placements") or "[i8; 4]" not in (src.get("ty") or ""):
+                continue
+            q0, q1 = cl["params"][0]["pats"]
+            while q1.get("k") == "Ref":
+                q1 = q1["pat"]
+            if q0.get("k") != "Bind" or q1.get("k") != "Bind":
+                continue
+            nid, xid = q0["id"], q1["id"]
+            for pe in tir.walk(cl["body"]):
+                if pe.get("k") == "Call" and (declared(pe) or "") == "io::slippi::de::player_end" and len(pe["args"]) == 2:
+                    a0, a1 = pe["args"]
+                    port_from_n = any(x.get("k") == "Call" and (declared(x) or "").endswith("TryFrom::try_from") and any(y.get("k") == "Path" and y.get("id") == nid for y in tir.walk(x)) for x in tir.walk(a0)) and "Port" in (a0.get("ty") or "")
+                    v = strip(a1)
+                    return bool(port_from_n and v.get("id") == xid)
     # for (n, placement) in placements.into_iter().enumerate() { .. player_end(Port::try_from(n as u8).unwrap(), placement)? .. }
     for lp in tir.walk(b["tir"]["value"]):
         if lp.get("k") == "For" and lp["pat"].get("k") == "Tuple" and len(lp["pat"]["pats"]) == 2 and all(q.get("k") == "Bind" for q in lp["pat"]["pats"]):
@@ -387,6 +421,23 @@ def placements_ok(b):
                         v = strip(v["e"])
                     return bool(port_from_n and v.get("id") == xid)
     return False
+
+
+def no_extra_refusal_rule(F, rep):
+    """the decoders reject a block only through the conversions the spec's value domains call for (enum try_from, string decoding,
+    the per-port placement table) and through `?` on reads of the block itself: an explicit Err(..) / early return / panic in
+    game_start, player or game_end is a refusal of some byte combination the spec allows"""
+    for fn in (GS, PL, GE):
+        b = F.body(fn)
+        if b is None:
+            continue
+        root = b["tir"]["value"]
+        errs = [x for x in tir.walk(root) if x.get("k") == "Call" and (declared(x) or "").endswith("::Err") and (x.get("dk") or "").startswith("Ctor")]
+        rets = [x for x in tir.walk(root) if x.get("k") == "Ret"]
+        pan = [x for x in tir.walk(root) if x.get("k") == "Call" and (declared(x) or "").startswith("core::panicking") and not tir.in_macro(x, "debug_assert", "debug_assert_eq")]
+        bad = errs + rets + pan
+        rep.ob("decode.no-extra-refusal", not bad, fn, "refusal", "%s rejects a block outside the spec's value domains at %s: every byte combination of the fields it decodes must be accepted" % (
+            fn, [tir.sp(x) for x in bad[:3]]), tir.sp(bad[0]) if bad else "")
 
 
 def end_rule(F, rep, spec):
@@ -477,6 +528,7 @@ def run(F, rep, tier):
     player_rule(F, rep, spec)
     end_rule(F, rep, spec)
     strings_rule(F, rep)
+    no_extra_refusal_rule(F, rep)
     # name tag / netplay name / connect code: the bytes before the first NUL, strictly decoded (shared with C19)
     from props import C19
     C19.decode_rule(F, rep)
